@@ -2,7 +2,7 @@
 from .. import scriptprop
 
 ID = "C07"
-GEN = ["SortedShapes.lean"]   # regenerated from the source on every run (tie 4B): kernels / call shapes / function shapes
+GEN = ["SortedShapes.lean", "SlicesShapes.lean"]   # regenerated from the source on every run (tie 4B): kernels / call shapes / function shapes
 RULE = ("histories from NewSorted over initial slices of length 0..12 (unsorted, with duplicates, with spare capacity) then add/remove(present|absent)/removeat/index/contains/get/len/slice/input, "
         "universe 6, less in {<, >, x/2<y/2 (ties between distinguishable values)}, NewSortedOrdered over ints and over strings (the caller's slice re-observed); out-of-range positions are part of the property (panics); deep histories: 40..300 (thorough: ..5000) elements shrunk to almost nothing and grown again; non-trivial = at least 4 mutations")
 ASSUMPTIONS = ["sort.SliceStable and sort.Search are modelled by reference implementations proved to contract"]
